@@ -3,7 +3,7 @@
     profile characterisation. *)
 From Coq Require Import List Ascii String ZArith NArith Bool Lia.
 From Shexer Require Import Lib.PyStr Lib.Dict Gen.Consts Spec.Rdf Spec.ShexSem Model.Tracker Model.Profiler
-     Model.Tokens Model.Freq Model.FreqInst Model.Shexing Model.Run Model.SchemaOf
+     Model.Tokens Model.Freq Model.FreqInst Model.Shexing Model.Run Model.SchemaOf Model.C03Dom
      Proofs.FreqLaws Proofs.ConformProofs.
 Import ListNotations.
 
@@ -201,39 +201,12 @@ Qed.
 Section Data.
   Variable tau sns : str.
   Variable G : graph.
-
-  Definition T0 : typing := instance_typing tau sns G.
-
-  Definition labels_of (n : node) : list str :=
-    map snd (filter (fun nl => node_eqb (fst nl) n) T0).
-
-  (** subjects of the [tau]-triples whose object is named [c] (with multiplicity, as the tracker lists them) *)
-  Definition instances_of (c : str) : list node :=
-    flat_map (fun t => if str_eqb (tp t) tau
-                       then match to t with
-                            | ON cn => if str_eqb (nid cn) c then [ts t] else []
-                            | OL _ _ => []
-                            end
-                       else []) G.
-
-  (** the type keys a value [x] of property [p] contributes to (Spec/Counts.v's
-      [keys_direct] / [keys_inverse] without its collision quirks, which the
-      strict domain excludes): its element type, then the labels of its classes
-      -- except for blank-node subjects on inverse paths *)
-  Definition keys_of (inv : bool) (p : str) (x : obj) : list str :=
-    match x with
-    | OL _ dt => if str_eqb p tau then [] else [dt]
-    | ON n => if str_eqb p tau then [nid n]
-              else elem_type_node n :: (if inv && nkind_eqb (nk n) KBnode then [] else labels_of n)
-    end.
-
-  Definition cntk (i : node) (inv : bool) (p k : str) : N :=
-    N.of_nat (List.length (filter (fun x => mem_str k (keys_of inv p x)) (nbrs G i inv p))).
-
-  (** non-literal neighbours of the instances of class [c] *)
-  Definition nl_nbrs (c : str) (inv : bool) (p : str) : list node :=
-    flat_map (fun i => flat_map (fun x => match x with ON n => [n] | OL _ _ => [] end) (nbrs G i inv p))
-             (instances_of c).
+  Local Notation T0 := (C03Dom.T0 tau sns G).
+  Local Notation labels_of := (C03Dom.labels_of tau sns G).
+  Local Notation instances_of := (C03Dom.instances_of tau G).
+  Local Notation keys_of := (C03Dom.keys_of tau sns G).
+  Local Notation cntk := (C03Dom.cntk tau sns G).
+  Local Notation nl_nbrs := (C03Dom.nl_nbrs tau G).
 
   (** the property's strict domain *)
   Record strict_dom : Prop := {
@@ -977,12 +950,6 @@ End Stage.
 
 (** * Part 5 -- the strict domain as a boolean, and the run-level statement *)
 
-Fixpoint nodupb (l : list triple) : bool :=
-  match l with
-  | [] => true
-  | x :: r => negb (existsb (triple_eqb x) r) && nodupb r
-  end.
-
 Lemma nodupb_NoDup l : nodupb l = true -> NoDup l.
 Proof.
   induction l as [|x r IH]; cbn; intros H; [constructor|].
@@ -990,13 +957,6 @@ Proof.
   intros Hin. apply negb_true_iff in H1. assert (existsb (triple_eqb x) r = true); [|congruence].
   apply existsb_exists. exists x. split; [exact Hin | apply triple_eqb_eq; reflexivity].
 Qed.
-
-Fixpoint list_str_eqb (a b : list str) : bool :=
-  match a, b with
-  | [], [] => true
-  | x :: a', y :: b' => str_eqb x y && list_str_eqb a' b'
-  | _, _ => false
-  end.
 
 Lemma list_str_eqb_eq a b : list_str_eqb a b = true <-> a = b.
 Proof.
@@ -1007,46 +967,11 @@ Qed.
 Section DomB.
   Variable tau sns : str.
   Variable G : graph.
-
-  Definition classes_in : list str :=
-    flat_map (fun t => if str_eqb (tp t) tau then match to t with ON cn => [nid cn] | OL _ _ => [] end else []) G.
-
-  Definition preds_in : list str := map tp G.
-
-  Definition kinds_homog (X : list node) : bool :=
-    match X with
-    | [] => true
-    | x0 :: _ => forallb (fun x => nkind_eqb (nk x) (nk x0)) X
-    end.
-
-  Definition typed_homog (X : list node) : bool :=
-    forallb (fun x => list_str_eqb (labels_of tau sns G x) []) X ||
-    match X with
-    | [] => true
-    | x0 :: _ => match labels_of tau sns G x0 with
-                 | [l] => forallb (fun x => list_str_eqb (labels_of tau sns G x) [l]) X
-                 | _ => false
-                 end
-    end.
-
-  Definition path_ok (c : str) (inv : bool) (p : str) : bool :=
-    str_eqb p tau || (kinds_homog (nl_nbrs tau G c inv p) && typed_homog (nl_nbrs tau G c inv p)).
-
-  Definition strict_domb : bool :=
-    nodupb G &&
-    forallb (fun t => match to t with
-                      | OL _ dt => negb (is_nonliteral_type dt) && negb (str_eqb dt c_NONLITERAL_ELEM_TYPE)
-                      | ON _ => true
-                      end) G &&
-    forallb (fun nl : node * label => is_shape_type (snd nl)) (T0 tau sns G) &&
-    forallb (fun t => if str_eqb (tp t) tau
-                      then match to t with
-                           | ON (Node KIri c) => list_str_eqb (labels_of tau sns G (Node KIri c)) [] &&
-                                                 negb (str_eqb c c_NONLITERAL_ELEM_TYPE)
-                           | _ => false
-                           end
-                      else true) G &&
-    forallb (fun c => forallb (fun p => path_ok c false p && path_ok c true p) preds_in) classes_in.
+  Local Notation classes_in := (C03Dom.classes_in tau G).
+  Local Notation preds_in := (C03Dom.preds_in G).
+  Local Notation typed_homog := (C03Dom.typed_homog tau sns G).
+  Local Notation path_ok := (C03Dom.path_ok tau sns G).
+  Local Notation strict_domb := (C03Dom.strict_domb tau sns G).
 
   Lemma instances_of_nil c : ~ In c classes_in -> instances_of tau G c = [].
   Proof.
@@ -1148,12 +1073,9 @@ Section ExactB.
   Variable G : graph.
   Let tau := x_tau cfg.
   Let sns := x_shapes_ns cfg.
-
-  Definition has_entry (pd : pdict) (p k : str) (ck : ckey) : bool :=
-    existsb (fun pm : str * dict cdict =>
-      str_eqb p (fst pm) &&
-      existsb (fun kc : str * cdict =>
-        str_eqb k (fst kc) && existsb (fun cn : ckey * N => ckey_eqb ck (fst cn)) (snd kc)) (snd pm)) pd.
+  Local Notation dir_exactb := (C03Dom.dir_exactb cfg G).
+  Local Notation class_exactb := (C03Dom.class_exactb okNb cfg G).
+  Local Notation profile_exactb := (C03Dom.profile_exactb okNb cfg G).
 
   Lemma ckey_eqb_eq a b : ckey_eqb a b = true <-> a = b.
   Proof. destruct a, b; cbn; try (split; congruence). rewrite N.eqb_eq. split; congruence. Qed.
@@ -1168,37 +1090,6 @@ Section ExactB.
     apply existsb_exists in H. destruct H as [[ck' n] [H3 H]]. apply ckey_eqb_eq in H. cbn in H. subst ck'.
     exists m, cd, n. repeat split; assumption.
   Qed.
-
-  Definition dir_exactb (ce : str * centry) (inv : bool) : bool :=
-    let insts := instances_of tau G (fst ce) in
-    let pd := class_pd ce inv in
-    forallb (fun pm : str * dict cdict =>
-      forallb (fun kc : str * cdict =>
-        forallb (fun cn : ckey * N =>
-          N.eqb (snd cn) (n_inst node insts (fun i => ck_ok cfg (fst pm) (fst cn) (cntk tau sns G i inv (fst pm) (fst kc)))) &&
-          N.ltb 0 (snd cn) &&
-          match fst cn with
-          | CKn _ => str_eqb (fst pm) tau || existsb (fun cn' : ckey * N => ckey_eqb CKplus (fst cn')) (snd kc)
-          | CKplus => true
-          end) (snd kc)) (snd pm)) pd &&
-    forallb (fun i =>
-      forallb (fun p =>
-        forallb (fun x =>
-          forallb (fun k => has_entry pd p k (if str_eqb p tau then CKn 1 else CKplus))
-                  (keys_of tau sns G inv p x)) (nbrs G i inv p)) (preds_in G)) insts.
-
-  Definition class_exactb (C : ccounts) (ce : str * centry) : bool :=
-    let insts := instances_of tau G (fst ce) in
-    match insts with [] => false | _ => true end &&
-    N.eqb (class_cnt C ce) (N.of_nat (List.length insts)) && okNb (class_cnt C ce) &&
-    dir_exactb ce false && (negb (x_inverse cfg) || dir_exactb ce true).
-
-  Definition profile_exactb (P : cprofile) (C : ccounts) : bool :=
-    forallb (class_exactb C) P &&
-    forallb (fun c => existsb (fun ce : str * centry => str_eqb (fst ce) c) P) (classes_in tau G) &&
-    forallb (fun ce1 : str * centry =>
-      forallb (fun ce2 : str * centry =>
-        negb (str_eqb (shape_name sns (fst ce1)) (shape_name sns (fst ce2))) || str_eqb (fst ce1) (fst ce2)) P) P.
 
   Lemma dir_exactb_sound ce inv : dir_exactb ce inv = true ->
     pd_wf cfg node (instances_of tau G (fst ce)) (cntk tau sns G) inv (class_pd ce inv) /\
@@ -1261,24 +1152,9 @@ Section ExactB.
       specialize (H2 _ Hc). apply existsb_exists in H2. destruct H2 as [ce [Hce E]]. apply str_eqb_eq in E.
       exists ce. split; assumption.
     - intros ce1 ce2 Hc1 Hc2 E. specialize (H3 ce1 Hc1). rewrite forallb_forall in H3. specialize (H3 ce2 Hc2).
-      fold sns in E. rewrite E, str_eqb_refl in H3. cbn in H3. apply str_eqb_eq. exact H3.
+      cbv zeta in H3. rewrite E, str_eqb_refl in H3. cbn in H3. apply str_eqb_eq. exact H3.
   Qed.
 End ExactB.
-
-(** both premises of [run_conformance], computed on the model's own tracker and profiler *)
-Definition c03_premises (okNb : N -> bool) (c : rcfg) (g : graph) : option (bool * bool) :=
-  match full_ns c with
-  | None => None
-  | Some ns =>
-    match track (r_tau c) (match r_targets c with Some l => TClasses l | None => TAll end) (r_cap c) g with
-    | inr _ => None
-    | inl ins =>
-      match profile (pcfg_of c) ins g with
-      | inl (P, C, _) => Some (strict_domb (r_tau c) (r_shapes_ns c) g, profile_exactb okNb (scfg_of c ns) g P C)
-      | inr _ => None
-      end
-    end
-  end.
 
 (** T4 with computed premises: when both booleans hold the run's schema is satisfied *)
 Theorem run_conformance_checked fa okN okF (L : FreqLaws fa okN okF) okNb c thr g ns shapes :
